@@ -440,9 +440,19 @@ def rule_fatal(R):
 
 
 def passes_ok_edge(code, res_sw, leaf):
+    """the path takes the Ok *edge* of a switch on the call's result (the block that edge leads to may be shared with the
+    fall-through of a `matches!` on the error, so being in that block proves nothing)"""
+    pth = leaf["path"]
     for si in res_sw:
         ok_t = si["edges"].get("Ok")
-        if ok_t is not None and ok_t in leaf["path"]:
+        if ok_t is None:
+            continue
+        for k in range(len(pth) - 1):
+            if pth[k] == si["bb"] and pth[k + 1] == ok_t:
+                return True
+        # the exploration may start at the switch's own target (path does not contain the switch block): the start block is
+        # the Ok target only when the leaf's constraint says so
+        if pth and pth[0] == ok_t and leaf["cons"].get(()) == "Ok":
             return True
     return False
 
